@@ -243,6 +243,6 @@ def obligations(tier):
     modes = list(P.MODES)
     for mname in modes:
         obs.append(Ob(f'glue_flags_{mname}', 'S', ob_glue_flags, f'flag invariants, mode {mname}', functions=G, weight=6,
-                      timeout=7000, params={'mmax': 2 if q else 3, 'fill': (0, 2, 4, 7) if q else (0, 3, 5, 7), 'modes': [mname],
+                      timeout=7000, params={'mmax': 2 if q else 3, 'fill': (0, 2, 4, 7) if q else (0, 5, 7), 'modes': [mname],
                                             'cap': 2100 if q else 6500}))
     return obs
